@@ -95,11 +95,17 @@ def untree(t):
 
 def desc_tree(d):
     """a requested config (the driver's own data) in the record shape of ConfigId.tla"""
-    return dict(name=d["name"], grid_n=d["grid_n"], n_mazes=d["n_mazes"], seed=d["seed"], ctor=d["ctor"], ck=tree(d["ck"]), ek=tree(d["ek"]), af=tree(d["af"]))
+    t = dict(name=d["name"], grid_n=d["grid_n"], n_mazes=d["n_mazes"], seed=d["seed"], ctor=d["ctor"], ck=tree(d["ck"]), ek=tree(d["ek"]), af=tree(d["af"]))
+    if "slmin" in d:  # seq_len_min / seq_len_max when the request sets them (otherwise the class defaults)
+        t.update(slmin=d["slmin"], slmax=d["slmax"])
+    return t
 
 
 def desc_untree(t):
-    return dict(name=t["name"], grid_n=t["grid_n"], n_mazes=t["n_mazes"], seed=t["seed"], ctor=t["ctor"], ck=untree(t["ck"]), ek=untree(t["ek"]), af=untree(t["af"]))
+    d = dict(name=t["name"], grid_n=t["grid_n"], n_mazes=t["n_mazes"], seed=t["seed"], ctor=t["ctor"], ck=untree(t["ck"]), ek=untree(t["ek"]), af=untree(t["af"]))
+    if "slmin" in t:
+        d.update(slmin=t["slmin"], slmax=t["slmax"])
+    return d
 
 
 # ------------------------------------------------------------------ the real code
@@ -309,15 +315,17 @@ def obs_cline(specs):
 def coll_families(bs, n):
     """per family: a 2-member collection and its neighbours (a member changed in one field, order, count, name)"""
     fams = []
+    cap = lambda m: dict(m, n_mazes=1500000) if m["n_mazes"] > 25000000 else m  # noqa: E731 - the total count must stay a 32-bit number for TLC
     for k in range(n):
-        m1, m2 = bs[(2 * k) % len(bs)], bs[(2 * k + 1) % len(bs)]
+        m1, m2 = cap(bs[(2 * k) % len(bs)]), cap(bs[(2 * k + 1) % len(bs)])
         base = dict(name="coll", members=[m1, m2])
         fam = [base, dict(name="coll", members=[m2, m1]), dict(name="coll", members=[m1]), dict(name="coll", members=[m1, m2, m2]), dict(name="coll2", members=[m1, m2])]
         for f in FIELDS:
-            opts = [v for v in options(f, m1) if _fk(v) != _fk(m1[f])]
+            small = lambda v: f != "n_mazes" or v <= 25000000  # noqa: E731
+            opts = [v for v in options(f, m1) if _fk(v) != _fk(m1[f]) and small(v)]
             if opts:
                 fam.append(dict(name="coll", members=[dict(m1, **{f: opts[k % len(opts)]}), m2]))
-            opts = [v for v in options(f, m2) if _fk(v) != _fk(m2[f])]
+            opts = [v for v in options(f, m2) if _fk(v) != _fk(m2[f]) and small(v)]
             if opts:
                 fam.append(dict(name="coll", members=[m1, dict(m2, **{f: opts[(k + 1) % len(opts)]})]))
         if _fk(m1) != _fk(m2):
@@ -742,11 +750,13 @@ def main(chk: lib.Check) -> int:
     # collections of configs
     cfams = coll_families(bs, 24 if thorough else 4)
     cspecs = [sp for fam in cfams for sp in fam]
+    if any(sum(m["n_mazes"] for m in sp["members"]) > I32 for sp in cspecs):
+        raise lib.MachineryError("collection with a total maze count beyond 32 bits")
     coll_out = lib.pmap(obs_coll, cspecs, chunksize=4)
     recs += coll_out
     recs += lib.pmap(obs_cline, cfams, chunksize=1)
     # other interpreter processes
-    pidx = list(range(len(ulist))) if thorough else list(range(0, len(ulist), max(1, len(ulist) // 400)))
+    pidx = list(range(len(ulist))) if thorough else sorted(set(range(0, len(ulist), max(1, len(ulist) // 400))) | set(range(len(ulist) - len(extra), len(ulist))))
     cidx = list(range(len(cspecs))) if thorough else list(range(0, len(cspecs), 3))
     pds = [ulist[i][0] for i in pidx] + [cspecs[i] for i in cidx]
     pds_main = [unit_out[i][0] for i in pidx] + [coll_out[i] for i in cidx]  # the cfg / coll records of this process
@@ -821,10 +831,7 @@ def reobserve(case):
     if k == "cfg":
         return obs_cfg(desc_untree(case["d"]))
     if k == "rt":
-        d = desc_untree(case["d"])
-        if "o" in case and case["o"].get("slmin", 1) != -1 and (case["o"].get("slmin", 1), case["o"].get("slmax", 512)) != (1, 512):
-            d.update(slmin=case["o"]["slmin"], slmax=case["o"]["slmax"])
-        return obs_rt(d, case["path"])
+        return obs_rt(desc_untree(case["d"]), case["path"])
     if k == "line":
         return obs_line((case["field"], [desc_untree(t) for t in case["cfgs"]]))
     if k == "fam":
